@@ -20,6 +20,7 @@ def main (args : List String) : IO UInt32 := do
   | ["model", "c01"] => run C01.machine; return 0
   | ["monitor", "c01"] => runMonitor C01.monitor; return 0
   | ["monitor", "c05"] => runMonitor C05.monitor; return 0
+  | ["monitor", "c05s"] => runMonitor C05.monitorS; return 0
   | ["model", "c14"] => run C14.machine; return 0
   | ["spec", "c14"] => run C14.machine; return 0
   | ["monitor", "c14"] => runMonitor C14.monitor; return 0
